@@ -247,6 +247,10 @@ def r3_mapping(rep, src):
     architectures and build profiles with the polarity of their "!" prefix, in reading order."""
     from .. import heap as H, symstr
     from ..symstr import SStr
+    from . import common
+    common.check_no_hidden_state(rep, src, 'C13.R3', [SITE + '.parse_relations', SITE + '.str'],
+                                 'a parse result handed out from (or shared with) a memo is the same object for equal texts: when a caller edits one '
+                                 'result in place, a later format→parse of an equal relation returns a different structure')
     fp = src.func(SITE + '.parse_relations')
     rep.saw_func(fp)
     mod = src.mod('deb822')
@@ -337,10 +341,6 @@ def r3_mapping(rep, src):
             rep.ok('C13.R3', fp.site, what, 'as specified')
         else:
             rep.fail('C13.R3', fp.site, what, 'parse_relations("D1, D2 | D3") builds %s; specified: %s' % (str(got)[:300], str(want)[:300]), where=fp.where)
-    from . import common
-    common.check_no_hidden_state(rep, src, 'C13.R3', [SITE + '.parse_relations', SITE + '.str'],
-                                 'a parse result handed out from (or shared with) a memo is the same object for equal texts: when a caller edits one '
-                                 'result in place, a later format→parse of an equal relation returns a different structure')
     # the writer side of the polarity: decided by the template rules R1/R2 (the "!" literal is part of the extracted template)
 
 
